@@ -72,7 +72,8 @@ def gen_cases(rng, tier):
                 atom.append(col)
             coords.append(atom)
         shifts = [[[rng.randint(-3, 3) for _ in range(T)] for _ in range(3)] for _ in range(na)]
-        cases.append({'kind': 'exact', 'm': m, 'rot': rng.random() < 0.4, 'rseed': rng.randrange(10**6), 'coords': coords, 'shifts': shifts})
+        cases.append({'kind': 'exact', 'm': m, 'rot': rng.random() < 0.4, 'rseed': rng.randrange(10**6), 'coords': coords, 'shifts': shifts,
+                      'pre': rng.randint(1, T - 1) if (T >= 3 and rng.random() < 0.25) else 0})
     nf = {'quick': 12, 'thorough': 300, 'search': 6}[tier]
     for k in range(nf):
         xs = list(SPECIAL) if k == 0 else []
@@ -112,7 +113,7 @@ def _obs(traj):
 def impl(case):
     if case['kind'] == 'float':
         xs = np.array([_from_fl3(f) for f in case['xs']]).reshape(-1, 1, 3)
-        traj = synth.make_traj([[5, 0, 0], [0, 5, 0], [0, 0, 5]], ['Li'], xs)
+        traj = synth.make_traj([[5, 0, 0], [0, 5, 0], [0, 0, 5]], ['Li'], xs, mode='asis')
         p1 = np.array(traj.positions).reshape(-1)
         p2 = np.array(traj.positions).reshape(-1)
         try:
@@ -128,7 +129,14 @@ def impl(case):
     s = np.array(case['shifts'], dtype=float).transpose(2, 0, 1)
     out = {}
     for name, arr in (('a', c), ('b', c + s)):
-        traj = synth.make_traj(m, ['Li'] * arr.shape[1], arr, rot=rot)
+        k = case.get('pre', 0)
+        if k:
+            # a restarted run: the first k frames are analysed, the continuation is appended with extend(), then everything is observed
+            traj = synth.make_traj(m, ['Li'] * arr.shape[1], arr[:k], rot=rot)
+            _obs(traj)
+            traj.extend(synth.make_traj(m, ['Li'] * arr.shape[1], arr[k:], rot=rot))
+        else:
+            traj = synth.make_traj(m, ['Li'] * arr.shape[1], arr, rot=rot)
         pos, disp, cum, dist, pos2 = _obs(traj)
         # calls that derive other objects (drift-corrected copy, centre of mass, selections, slices, MSD) must leave every observable of this one unchanged
         nfr = arr.shape[0]
